@@ -14,9 +14,17 @@
    - [C04_long_fork_never_adopted]: the same at the level of the handler's outcome.
    - [C04_rollback_removes_abandoned_history]: after rollback_to_block(to), no history entry at or above
      [to] of a rolled-back script remains.
-   - [C04_rollback_resumes_filtering]: filter progress is moved below the rollback point. *)
+   - [C04_rollback_resumes_filtering]: filter progress is moved below the rollback point.
+   - [C04_rollback_restores_the_index] (end to end, every chain, every script set, every number of abandoned blocks):
+     index a chain bs1 ++ bs2 block by block, then roll back to n with bs1 below n and bs2 at or above n: the rollback
+     does not unwind and the cell index is, key by key, the abstract cell index of bs1 alone (Model/IndexSpec.v, the
+     specification C03 proves the index against) - every cell the abandoned blocks created is gone, every cell they
+     spent is live again, nothing else changed.  Hypotheses = what a valid chain in ascending order guarantees
+     (distinct block numbers and transaction hashes, inputs name transactions at lower positions, an out-point is spent
+     once) + every registered script is at or above the rollback point (the scripts rollback_to_block processes) and
+     the script set has no duplicates (update_filter_scripts upserts). *)
 From Coq Require Import NArith List.
-From LC Require Import Res LastStateProof LastStateProofProofs Store StoreProofs.
+From LC Require Import Res LastStateProof LastStateProofProofs Store StoreProofs IndexSpec IndexRefinement IndexSpecMeaning RollbackRefinement.
 Import ListNotations.
 Open Scope N_scope.
 
@@ -69,6 +77,50 @@ Theorem C04_rollback_resumes_filtering :
     min_filtered st' = if to <=? min_filtered st then to - 1 else min_filtered st.
 Proof. exact rollback_min_filtered. Qed.
 Print Assumptions C04_rollback_resumes_filtering.
+
+Theorem C04_rollback_restores_the_index :
+  forall regs bs1 bs2 n,
+    well_formed_chain (bs1 ++ bs2) -> refs_backwards (chain_txs (bs1 ++ bs2)) ->
+    lower_positions (chain_txs (bs1 ++ bs2)) -> spent_once (chain_txs (bs1 ++ bs2)) ->
+    (forall b, In b bs1 -> b_number b < n) -> (forall b, In b bs2 -> n <= b_number b) ->
+    (forall ss, In ss regs -> n <= ss_number ss) -> NoDup (map (fun x => (ss_type x, ss_script x)) regs) ->
+    exists st', rollback_to_block (fold_left filter_block (bs1 ++ bs2) (fresh_store regs)) n = Ok st' /\
+                forall k, a_get ckey_eqb k (cells st') = spec_chain (reg_of regs) bs1 k.
+Proof. exact rollback_restores_index. Qed.
+Print Assumptions C04_rollback_restores_the_index.
+
+(* non-vacuity: block 1 creates two cells of the watched lock script 5; the abandoned block 2 spends the first and creates
+   another; the hypotheses hold, and after the rollback to 2 exactly the two cells of block 1 are live *)
+Definition ex_t1 : tx := mkTx 100 [] [mkOut 5 None; mkOut 5 (Some 6)].
+Definition ex_t2 : tx := mkTx 200 [(100, 0)] [mkOut 7 None; mkOut 5 None].
+Definition ex_bs1 : list block := [mkBlock 1 [ex_t1]].
+Definition ex_bs2 : list block := [mkBlock 2 [ex_t2]].
+
+Example C04_rollback_example_hypotheses :
+  well_formed_chain (ex_bs1 ++ ex_bs2) /\ refs_backwards (chain_txs (ex_bs1 ++ ex_bs2)) /\
+  lower_positions (chain_txs (ex_bs1 ++ ex_bs2)) /\ spent_once (chain_txs (ex_bs1 ++ ex_bs2)).
+Proof.
+  split; [|split; [|split]].
+  - split; cbn; repeat constructor; cbn; intuition discriminate.
+  - intros l1 p l2 H inp Hin q Hq. cbn in H.
+    destruct l1 as [|a [|a' l1]]; cbn in H; inversion H; subst; cbn in Hin.
+    + destruct Hin.
+    + destruct Hin as [<-|[]]. destruct Hq as [<-|[]]. cbn. discriminate.
+    + exfalso. match goal with H0 : [] = ?l ++ _ |- _ => destruct l; discriminate H0 end.
+  - intros bn ti tr inp g H1 H2 H3 H4. cbn in H1, H3.
+    destruct H1 as [H1|[H1|[]]]; inversion H1; subst; cbn in H2; [destruct H2|]. destruct H2 as [<-|[]].
+    destruct H3 as [<-|[<-|[]]]; cbn in *; [left; reflexivity | discriminate].
+  - intros q1 q2 inp H1 H2 H3 H4. cbn in H1, H2.
+    destruct H1 as [<-|[<-|[]]], H2 as [<-|[<-|[]]]; cbn in H3, H4; try reflexivity; contradiction.
+Qed.
+
+Example C04_rollback_example_result :
+  match rollback_to_block (fold_left filter_block (ex_bs1 ++ ex_bs2) (fresh_store [mkSS 5 0 2])) 2 with
+  | Ok st' => map fst (cells st') = [(0, 5, 1, 0, 0); (0, 5, 1, 0, 1)] /\
+              map fst (history st') = [(0, 5, 1, 0, 1, 1); (0, 5, 1, 0, 0, 1)]
+  | _ => False
+  end.
+Proof. vm_compute. split; reflexivity. Qed.
 
 (* KNOWN FINDING (see /verif/KNOWN_FINDINGS.jsonl, classes C04-fork-switch-without-rollback-...).
    The full statement "whenever the stored tip is replaced by a header of a branch that does not contain
